@@ -41,17 +41,7 @@ EXTENDS RefDefs, Json, IOUtils, TLC
 Cases == JsonDeserialize(IOEnv.CASES)
 \* the same for every case: [defaults |-> the lines printed by skool2html.py -r for the queried built-in sections]
 Aux == JsonDeserialize(IOEnv.AUX)
-\* the built-in sections under every variant, as constants (TLC evaluates a tuple of constants once; a function
-\* constructor would be re-evaluated at every application)
-VSeq == << [rstrip |-> TRUE, trimtrail |-> TRUE, repeat |-> "replace"], [rstrip |-> TRUE, trimtrail |-> FALSE, repeat |-> "replace"],
-           [rstrip |-> FALSE, trimtrail |-> TRUE, repeat |-> "replace"], [rstrip |-> FALSE, trimtrail |-> FALSE, repeat |-> "replace"],
-           [rstrip |-> TRUE, trimtrail |-> TRUE, repeat |-> "append"], [rstrip |-> TRUE, trimtrail |-> FALSE, repeat |-> "append"],
-           [rstrip |-> FALSE, trimtrail |-> TRUE, repeat |-> "append"], [rstrip |-> FALSE, trimtrail |-> FALSE, repeat |-> "append"] >>
-ASSUME Range(VSeq) = Variants /\ VSeq[1] = Impl
-DefaultSeq == << ParseFile(<<>>, Aux.defaults, VSeq[1]), ParseFile(<<>>, Aux.defaults, VSeq[2]), ParseFile(<<>>, Aux.defaults, VSeq[3]),
-                 ParseFile(<<>>, Aux.defaults, VSeq[4]), ParseFile(<<>>, Aux.defaults, VSeq[5]), ParseFile(<<>>, Aux.defaults, VSeq[6]),
-                 ParseFile(<<>>, Aux.defaults, VSeq[7]), ParseFile(<<>>, Aux.defaults, VSeq[8]) >>
-DefaultSecs(V) == DefaultSeq[CHOOSE i \in 1..8 : VSeq[i] = V]
+DefaultSecs(V) == ParseFile(<<>>, Aux.defaults, V)
 VARIABLES tid, verdict
 
 FnOf(pairs) == [x \in {p[1] : p \in Range(pairs)} |-> (CHOOSE p \in Range(pairs) : p[1] = x)[2]]
